@@ -183,33 +183,50 @@ pub fn extra(ctx: &Ctx) {
         ctx.add_transitions(n);
         ctx.set("instances_of_c12_model_fonts", json!({"fonts": corpus.len(), "instances": n}));
     }
-    // fonts rebuilt from WOFF2-reconstructed tables: consistency of the reconstructed maxp/hhea/hmtx/head/loca/glyf
+    // fonts rebuilt from WOFF2-reconstructed tables: consistency of the reconstructed maxp/hhea/hmtx/head/loca/glyf.
+    // The six fixtures, then the model fonts of the C11 encoder (glyf sizes around the short/long loca switch, glyph count
+    // boundaries, five glyph sets under hmtx / bbox / loca choices, mixed collections).
+    let mut files: Vec<(String, Vec<u8>, Vec<usize>)> = Vec::new();
     for f in ["fonts/woff2/test-font.woff2", "fonts/woff2/SFNT-TTF-Composite.woff2", "fonts/woff2/roundtrip-hmtx-lsb-001.woff2", "fonts/woff2/roundtrip-offset-tables-001.woff2", "fonts/woff2/test_glyf_loca_null_transforms.woff2", "fonts/woff2/TestSVGgzip.woff2"] {
-        let data = crate::util::fixture(f);
-        let what = || json!({"font": f, "operation": "woff2 decode, tables re-wrapped by otmodel::sfnt::build"});
-        ctx.evals(1);
-        let r = guard(|| {
-            let fd = ReadScope::new(&data).read::<FontData<'_>>().map_err(|e| format!("{:?}", e))?;
-            let p = fd.table_provider(0).map_err(|e| format!("{:?}", e))?;
-            let mut tables = Vec::new();
-            let mut tags = p.table_tags().unwrap_or_default();
-            tags.sort();
-            for t in tags {
-                if let Ok(Some(d)) = p.table_data(t) {
-                    tables.push((t, d.into_owned()));
+        files.push((f.to_string(), crate::util::fixture(f), vec![0]));
+    }
+    files.extend(crate::c11::corpus_for_c09(ctx.tier.thorough()));
+    let n: u64 = files
+        .par_iter()
+        .map(|(f, data, indices)| {
+            let mut n = 0u64;
+            for &index in indices {
+                let what = || json!({"font": f, "member": index, "operation": "woff2 decode, tables re-wrapped by otmodel::sfnt::build"});
+                n += 1;
+                let r = guard(|| {
+                    let fd = ReadScope::new(data).read::<FontData<'_>>().map_err(|e| format!("{:?}", e))?;
+                    let p = fd.table_provider(index).map_err(|e| format!("{:?}", e))?;
+                    let mut tables = Vec::new();
+                    let mut tags = p.table_tags().unwrap_or_default();
+                    tags.sort();
+                    for t in tags {
+                        if let Ok(Some(d)) = p.table_data(t) {
+                            tables.push((t, d.into_owned()));
+                        }
+                    }
+                    Ok::<_, String>(tables)
+                });
+                match r {
+                    Ok(Ok(tables)) => {
+                        let flavor = if tables.iter().any(|t| t.0 == tag::CFF) { otmodel::sfnt::OTTO } else { otmodel::sfnt::TTF };
+                        let out = otmodel::sfnt::build_with(flavor, &tables, &otmodel::sfnt::BuildOpts { fix_head_adjustment: true, ..Default::default() });
+                        validate_and_load(ctx, "woff2-reconstruction", &what, &out, true);
+                        ctx.mark_nontrivial(H::new().str(f).u64(index as u64).get());
+                    }
+                    Ok(Err(_)) => {}
+                    Err(pn) => ctx.violation(&format!("C09:panic:{}", pn.site_key("/repo")), || json!({"case": what(), "panic": pn.msg})),
                 }
             }
-            Ok::<_, String>(tables)
-        });
-        match r {
-            Ok(Ok(tables)) => {
-                let flavor = if tables.iter().any(|t| t.0 == tag::CFF) { otmodel::sfnt::OTTO } else { otmodel::sfnt::TTF };
-                let out = otmodel::sfnt::build_with(flavor, &tables, &otmodel::sfnt::BuildOpts { fix_head_adjustment: true, ..Default::default() });
-                validate_and_load(ctx, "woff2-reconstruction", &what, &out, true);
-                ctx.mark_nontrivial(H::new().str(f).get());
-            }
-            Ok(Err(_)) => {}
-            Err(pn) => ctx.violation(&format!("C09:panic:{}", pn.site_key("/repo")), || json!({"case": what(), "panic": pn.msg})),
-        }
-    }
+            n
+        })
+        .sum();
+    ctx.evals(n);
+    ctx.add_states(n);
+    ctx.add_transitions(n);
+    ctx.set("woff2_reconstructions", json!({"files": files.len(), "fonts": n}));
 }
